@@ -647,5 +647,9 @@ func main() {
 	fmt.Fprintf(&lb, "/-- stdlib setproduct: per-argument and total length thresholds of the unknown-length refinement -/\ndef setproductArgMaxLen : Nat := %d\ndef setproductMaxLength : Nat := %d\n", cmpConst(sl, "argMaxLen", ">"), cmpConst(sl, "maxLength", ">"))
 	lb.WriteString("\nend CtyModel.Generated\n")
 	writeIfChanged(filepath.Join(*leanDir, "Limits.lean"), lb.String())
+
+	// the pure recursive core of cty.Type, translated (translate.go)
+	ndefs := translateTyFns(*repo, *leanDir, hdr)
+	fmt.Printf("ctyextract: %d Lean definitions translated from cty.Type's Equals/TestConformance/HasDynamicTypes/WithoutOptionalAttributesDeep\n", ndefs)
 	fmt.Printf("ctyextract: %d stdlib functions, %d op prologues, %d delimiters, %d+%d primitive conversions\n", len(fns), len(ps), len(rs), len(safe), len(unsafe))
 }
